@@ -23,6 +23,7 @@
       [doc_need_post fb] = max(1, max over crossings of crossing_need(c, max size)). *)
 From Coq Require Import ZArith List Bool Arith.
 From SP Require Import Design.Flat Design.Layout Front.Trials Front.TrialsWf Front.TrialsProofs Front.TrialsExamples.
+From SP Require Import Front.CreateFlat Front.CreateWf.
 Import ListNotations.
 
 (** The [while] loop: a factor of stride 1, window start [s] and sustain count [su]
@@ -83,6 +84,63 @@ Print Assumptions C16_trials_ge_min.
 Theorem C16_wf_check_sound : forall fb : flat, wf_trials_b fb = true -> wf_trials fb.
 Proof. exact wf_trials_b_sound. Qed.
 Print Assumptions C16_wf_check_sound.
+
+(** [wf_trials] is not only checked on the flat record of every real block: it holds of every record [fb] that
+    the model of the constructor ([create_flat], Front/CreateFlat.v: [_create] with [Block.__init__], compared
+    field by field with the real block on every run) builds from arguments [ci] satisfying the executable
+    condition [input_ok] (Front/CreateWf.v: one exclusion count below the crossing size and one positive sustain
+    count per non-empty crossing, crossed factors of stride 1, crossings sharing a factor have equal sustain
+    counts, ...).  On such a record the trial count and the preamble sizes follow the documented formulas with
+    no well-formedness hypothesis left. *)
+Theorem C16_trials_of_created :
+  forall (ci : create_input) (fb : flat),
+    input_ok ci = true -> create_flat ci = FOk fb ->
+    (forall m, fl_alignment fb <> PostPreamble -> model_min_trials fb = Some m ->
+       model_trials fb = Some (Z.max m (Z.of_nat (doc_need_own fb)))) /\
+    (forall m, fl_alignment fb = PostPreamble -> fl_crossings fb <> [] -> model_min_trials fb = Some m ->
+       model_trials fb = Some (Z.max m (Z.of_nat (doc_need_post fb)))) /\
+    model_preambles fb
+    = Some (map (fun c => cstart fb c * csustain fb c) (map fst (combine (fl_crossings fb) (fl_sizes fb)))).
+Proof. exact trials_of_created. Qed.
+Print Assumptions C16_trials_of_created.
+
+(** ... and the fields the constructor stores are those numbers: [preamble_sizes] is, per crossing, the latest
+    window start among its factors in trials; [trials_per_sample()] is the larger of the rounded MinimumTrials
+    ([min_trials]) and the largest need of a crossing. *)
+Theorem C16_created_trial_count :
+  forall (ci : create_input) (fb : flat),
+    input_ok ci = true -> create_flat ci = FOk fb ->
+    fl_preambles fb = map (fun c => cstart fb c * csustain fb c) (fl_crossings fb) /\
+    (fl_alignment fb <> PostPreamble -> fl_trials fb = Nat.max (fl_min_trials fb) (doc_need_own fb)) /\
+    (fl_alignment fb = PostPreamble -> fl_crossings fb <> [] -> fl_trials fb = Nat.max (fl_min_trials fb) (doc_need_post fb)).
+Proof. exact created_fields. Qed.
+Print Assumptions C16_created_trial_count.
+
+(** the guard itself, for a created record *)
+Theorem C16_wf_of_created :
+  forall (ci : create_input) (fb : flat),
+    input_ok ci = true -> create_flat ci = FOk fb -> wf_trials_b fb = true /\ wf_trials fb.
+Proof. exact create_flat_wf_trials_both. Qed.
+Print Assumptions C16_wf_of_created.
+
+(** The condition that crossings sharing a factor have equal sustain counts is not enforced by the constructors:
+      Merge([Nest(MultiCrossBlock([g, t], [[g, t]], [], alignment=PARALLEL_START), CrossBlock([h], [h], [])),
+             MultiCrossBlock([g, t, k], [[t, k]], [], alignment=PARALLEL_START)])
+    (t a transition factor on g) is accepted, t keeps the sustain count 1 of the last crossing it occurs in, the
+    guard fails and the formula (10 trials, the count of the Nest alone) is not the trial count (9). *)
+Example C16_shared_factor_two_sustain_counts_refuted :
+  exists ci fb, create_flat ci = FOk fb /\ wf_trials_b fb = false /\ fl_alignment fb <> PostPreamble /\
+    fl_trials fb = 9 /\ fl_preambles fb = [1; 0; 1] /\ doc_need_own fb = 10 /\ model_trials fb = Some 9%Z.
+Proof. exact create_flat_trials_formula_inconsistent_sustain_refuted. Qed.
+
+(** [input_ok] is met by the arguments of
+    MultiCrossBlock([o, i, t], [[o, t], [i]], [MinimumTrials(7), AtMostKInARow(1, i)], mode=WEIGHT, alignment=PARALLEL_START)
+    (t a transition factor on o): need 1*1 + 4 = 5, MinimumTrials 7, weights 2 and 4 *)
+Example C16_example_created :
+  input_ok ex_ok_input = true /\
+  exists fb, create_flat ex_ok_input = FOk fb /\ fl_trials fb = 7 /\ doc_need_own fb = 5 /\
+             fl_preambles fb = [1; 0] /\ fl_weights fb = [2; 4] /\ model_trials fb = Some 7%Z.
+Proof. split; [vm_compute; reflexivity|]. eexists. split; [vm_compute; reflexivity|]. repeat split. Qed.
 
 (** The hypotheses are met by the flat record of
     Nest(MultiCrossBlock([o, t], [[o, t]], [], alignment=PARALLEL_START), CrossBlock([i], [i], []), [MinimumTrials(11)])
